@@ -216,6 +216,7 @@ class FakeCluster:
         self.steps = 0
         self.progress = {}
         self.salt = 0
+        self.pubset = {}
 
     # --- id mapping
     def ds_id(self, ds):
@@ -294,6 +295,8 @@ class FakeCluster:
                 self.problem("purged-dataset-needed-again", f"task {t} needs {d} on host {h} after its purge")
         self.dispatched.append((w, t))
         self.wq[w] = t
+        # the worker writes to shared memory and announces exactly the outputs the command lists in `publish`
+        self.pubset[t] = {self.ds_id(d) for d in ts.publish}
 
     def fetch(self, ds, source):
         d, src = self.ds_id(ds), self.h_id(source)
@@ -371,11 +374,15 @@ class FakeCluster:
                 if self.executor:
                     self.executor(self, w, t, h)
             d = (t, i)
-            if (h, self.key[d]) in self.store:
-                self.problem("shm-key-collision", f"output {d} of task {t}: key already used by {self.store[(h, self.key[d])]}")
-            self.store[(h, self.key[d])] = d
-            self.published_truth.add(d)
-            self.pool.append(DatasetPublished(origin=self.wids[w], ds=self.ds_obj(d), transmit_idx=None))
+            if d in self.pubset.get(t, {d}):
+                if (h, self.key[d]) in self.store:
+                    self.problem("shm-key-collision", f"output {d} of task {t}: key already used by {self.store[(h, self.key[d])]}")
+                self.store[(h, self.key[d])] = d
+                self.published_truth.add(d)
+                self.pool.append(DatasetPublished(origin=self.wids[w], ds=self.ds_obj(d), transmit_idx=None))
+            else:
+                # not in the command's publish set: the value stays in the worker's local memory, nobody is told
+                self.values.pop((h, self.key[d]), None)
             self.progress[t] = i + 1
             if i + 1 == self.nout[t]:
                 self.wq.pop(w)
